@@ -1,6 +1,7 @@
 package main
 
 import (
+	"github.com/ChrisTrenkamp/xsel"
 	"fmt"
 	"os"
 	"os/exec"
@@ -12,7 +13,7 @@ import (
 
 func init() {
 	families["C10"] = famC10
-	rules["C10"] = "event streams: events_of(random tree) with random surplus end events at depth 0, namespace re-declarations and empty default declarations; " +
+	rules["C10"] = "trees ReadXml builds from generated XML texts (declarations and attributes in any order) checked against the Cursor contract directly; event streams: events_of(random tree) with random surplus end events at depth 0, namespace re-declarations and empty default declarations; " +
 		"observable: full dump of the store's tree (shape, node data, every Pos(), Parent() identity of every listed cursor) vs the model's build; " +
 		"non-trivial: the tree has >= 2 elements and at least one namespace node; distinct by hash of the event list; plus flat 10^6-event streams under a 1 MiB stack limit"
 	replayers["tree"] = func(rn *Runner, rp *Replay) (string, string, bool) {
@@ -107,6 +108,17 @@ func contractChecks(root store.Cursor) string {
 	return walk(root)
 }
 
+func init() {
+	replayers["xmltree"] = func(rn *Runner, rp *Replay) (string, string, bool) {
+		root, err := xsel.ReadXml(strings.NewReader(rp.Input))
+		if err != nil {
+			return "parse error: " + err.Error(), rp.Model, true
+		}
+		s := contractChecks(root)
+		return s, "Cursor contract", s == ""
+	}
+}
+
 func famC10(rn *Runner) {
 	ndocs := rn.Scale(300, 6000)
 	for i := 0; i < ndocs && !rn.TooMany(); i++ {
@@ -134,6 +146,26 @@ func famC10(rn *Runner) {
 		if s := contractChecks(root); s != "" {
 			rn.Report(&Replay{Family: "store-contract", Clause: s, Kind: "tree", Events: evs, Doc: showEvents(evs), Impl: impl, Model: model, Note: s},
 				"Cursor contract broken: "+s)
+		}
+	}
+	// the built-in parsers meet the Parser contract too: trees built by ReadXml from generated texts honour the Cursor contract
+	for i := 0; i < rn.Scale(300, 4000) && !rn.TooMany(); i++ {
+		r := rn.R.Fork()
+		g := &xmlGen{r: r, budget: rn.Scale(25, 80)}
+		var b strings.Builder
+		for _, it := range g.doc("") {
+			it.render(r, &b)
+		}
+		text := b.String()
+		root, err := xsel.ReadXml(strings.NewReader(text))
+		if err != nil {
+			continue
+		}
+		rn.Eval("xml|"+text, strings.Contains(text, "xmlns") && strings.Count(text, "=") >= 3)
+		rn.Count("built-in-parser:xml")
+		if s := contractChecks(root); s != "" {
+			rn.Report(&Replay{Family: "store-contract-xml", Clause: s, Kind: "xmltree", Input: text, Impl: s, Model: "Cursor contract", Note: s},
+				fmt.Sprintf("Cursor contract broken for the tree ReadXml builds from %q: %s", text, s))
 		}
 	}
 	// stack clause: a flat stream of 10^6 (thorough: 10^7) events under a lowered stack limit, in a subprocess
